@@ -160,8 +160,18 @@ class MafRecord(MutableMapping, LocatableByAllele):
         elif column.column_index is None:
             # set the column index to the next column
             column.column_index = len(self.__columns_list)
-        self.__columns_dict[key] = column
         assert column.column_index is not None
+        if column.column_index < 0:
+            raise KeyError
+        # the slot may not already hold a column with a different name,
+        # otherwise the dictionary and list would disagree
+        if column.column_index < len(self.__columns_list):
+            existing = self.__columns_list[column.column_index]
+            if existing is not None and existing.key != key:
+                raise ValueError(
+                    f"Column index '{column.column_index}' already holds column '{existing.key}'"
+                )
+        self.__columns_dict[key] = column
 
         # extend the list if the index is out of range
         if len(self) <= column.column_index:
